@@ -574,7 +574,30 @@ def run_case(ctx, case):
                 ctx.count("mid_round_unsubscriptions")
                 script.append(("mid_round_unsub", labels[id(actor)], labels[id(victim)]))
             n0 = len(log)
-            run.dispatch(o, m)
+            failing = None
+            if victim is None and subs and isinstance(subs[-1], Recorder) and rng.random() < 0.08:
+                # the observer notified last fails inside its update(); the caller catches the error
+                # and carries on with the same dispatcher: every later dispatch / reset still
+                # notifies every subscriber
+                failing = subs[-1]
+
+                def boom():
+                    raise RuntimeError("user observer failed")
+                failing.pending_action = boom
+                script.append(("last_observer_raises", labels[id(failing)]))
+            try:
+                run.dispatch(o, m)
+            except RuntimeError:
+                if failing is None:
+                    raise
+                ctx.count("dispatches_with_a_failing_last_observer")
+                if any(so.operation is run.op(o) for lst in d.schedule.schedule for so in lst):
+                    r.apply(o, m)
+                else:
+                    # the library chose to undo the dispatch: what the observers were told about it
+                    # is not judged
+                    ctx.count("dispatch_undone_after_an_observer_failure")
+                    return
             max_rec = max(max_rec, len(recs_now))
             order = [s for s in subs]          # subscription order at the start of the round
             gone = None
